@@ -603,8 +603,10 @@ func (fc *FnCtx) evalCallWith(st *State, call *ast.CallExpr, preRecv *Val, preAr
 	}
 	ct := fc.eng.contractFor(f, fc.pkg)
 	if rp := fc.root().pkg; rp != nil && rp.cf != nil {
-		scoped := funcKey(f.Origin(), nil) + "@" + strings.TrimPrefix(fc.root().key, rp.Types.Name()+".")
-		if sc, ok := rp.cf.Contracts[scoped]; ok {
+		suffix := "@" + strings.TrimPrefix(fc.root().key, rp.Types.Name()+".")
+		if sc, ok := rp.cf.Contracts[funcKey(f.Origin(), nil)+suffix]; ok {
+			ct = sc
+		} else if sc, ok := rp.cf.Contracts[funcKey(f.Origin(), rp.Types)+suffix]; ok {
 			ct = sc
 		}
 	}
@@ -2120,6 +2122,10 @@ func (fc *FnCtx) checkCallPre(st *State, call *ast.CallExpr, f *types.Func, recv
 			hasAny = true
 		}
 	}
+	if qk := funcKey(f.Origin(), nil); len(r.ct.CallPre[qk]) > 0 {
+		// receiver-qualified key, e.g. `callpre (common.Marshaler).Unmarshal: ...`
+		hasAny = true
+	}
 	if !hasAny {
 		return
 	}
@@ -2153,7 +2159,7 @@ func (fc *FnCtx) checkCallPre(st *State, call *ast.CallExpr, f *types.Func, recv
 			_ = v
 		}
 	}
-	for _, key := range []string{name, fmt.Sprintf("%s.%d", name, ord)} {
+	for _, key := range []string{name, fmt.Sprintf("%s.%d", name, ord), funcKey(f.Origin(), nil)} {
 		for i, cl := range r.ct.CallPre[key] {
 			env := &SpecEnv{fc: fc, st: st, old: r.entry, scope: scope, oldScope: fc.paramsEntry, pkg: fc.ctPkg(), useVars: true}
 			v := fc.safeSpec(env, cl.E, cl.Text)
